@@ -4,6 +4,7 @@ import (
 	"fmt"
 	"go/token"
 	"go/types"
+	"sort"
 	"strings"
 
 	"golang.org/x/tools/go/ssa"
@@ -38,6 +39,97 @@ func runC02(p *Prog, r *Report) {
 		if fn.Signature.Results().Len() == 2 && types.TypeString(fn.Signature.Results().At(0).Type(), nil) == ipContainerT {
 			checkScannerDiscipline(p, r, fn, "C02.R5")
 		}
+	}
+	r.Min("C02.R6", 1+2+2)
+	checkDirectConnections(p, r)
+}
+
+// checkDirectConnections (R6): the application probes open their TCP connection to the target itself.
+// (a) nothing in the repository uses net/http's ambient client or transport (both honour HTTP_PROXY /
+// HTTPS_PROXY: the peer of the connection would be the proxy, an address outside the target set);
+// (b) every http.Transport is allocated here, and neither a proxy nor a custom dial function is installed;
+// (c) every http.Client gets such a transport.
+func checkDirectConnections(p *Prog, r *Report) {
+	ambient := map[string]bool{
+		"net/http.DefaultTransport": true, "net/http.DefaultClient": true,
+		"net/http.Get": true, "net/http.Head": true, "net/http.Post": true, "net/http.PostForm": true,
+		"net/http.ProxyFromEnvironment": true, "net/http.ProxyURL": true, "(*net/http.Transport).Clone": true,
+	}
+	var uses []string
+	var transports, clients []*ssa.Alloc
+	for _, fn := range p.SrcFuncs() {
+		for _, b := range fn.Blocks {
+			for _, in := range b.Instrs {
+				var ops [12]*ssa.Value
+				for _, op := range in.Operands(ops[:0]) {
+					if op == nil || *op == nil {
+						continue
+					}
+					switch t := (*op).(type) {
+					case *ssa.Global:
+						if t.Pkg != nil && ambient[t.Pkg.Pkg.Path()+"."+t.Name()] {
+							uses = append(uses, t.Pkg.Pkg.Path()+"."+t.Name()+" in "+FuncName(fn))
+						}
+					case *ssa.Function:
+						if ambient[t.String()] {
+							uses = append(uses, t.String()+" in "+FuncName(fn))
+						}
+					}
+				}
+				if a, ok := in.(*ssa.Alloc); ok {
+					switch types.TypeString(a.Type(), nil) {
+					case "*net/http.Transport":
+						transports = append(transports, a)
+					case "*net/http.Client":
+						clients = append(clients, a)
+					}
+				}
+			}
+		}
+	}
+	sort.Strings(uses)
+	r.Check(len(uses) == 0, "C02.R6", "no-ambient-http", "-", "no use of net/http's default client / transport / proxy helpers (they route connections through HTTP_PROXY)", strings.Join(uses, "; "))
+	redirecting := map[string]bool{"Proxy": true, "DialContext": true, "Dial": true, "DialTLS": true, "DialTLSContext": true}
+	good := map[*ssa.Alloc]bool{}
+	perFn := map[*ssa.Function]int{}
+	for _, a := range transports {
+		perFn[a.Parent()]++
+		i := perFn[a.Parent()] - 1
+		bad := ""
+		for _, ref := range *a.Referrers() {
+			if fa, ok := ref.(*ssa.FieldAddr); ok {
+				if f := fieldName(fa.X.Type(), fa.Field); redirecting[f] {
+					for _, r2 := range *fa.Referrers() {
+						if st, isSt := r2.(*ssa.Store); isSt && !isNilConst(st.Val) {
+							bad = "field " + f + " is set"
+						}
+					}
+				}
+			}
+		}
+		good[a] = bad == ""
+		r.Check(bad == "", "C02.R6", fmt.Sprintf("%s/transport#%d", FuncName(a.Parent()), i+1), p.Pos(a.Pos()), "the HTTP transport connects to the request's own host: no proxy and no custom dial function", bad)
+	}
+	perFn = map[*ssa.Function]int{}
+	for _, a := range clients {
+		perFn[a.Parent()]++
+		i := perFn[a.Parent()] - 1
+		ok, why := false, "Transport is not set (the default transport honours HTTP_PROXY)"
+		for _, ref := range *a.Referrers() {
+			if fa, isFA := ref.(*ssa.FieldAddr); isFA && fieldName(fa.X.Type(), fa.Field) == "Transport" {
+				for _, r2 := range *fa.Referrers() {
+					if st, isSt := r2.(*ssa.Store); isSt {
+						ok, why = true, ""
+						for _, o := range p.Origins(st.Val) {
+							if ta, isA := o.(*ssa.Alloc); !isA || !good[ta] {
+								ok, why = false, "Transport is "+(*Seg)(nil).term(st.Val, 0)+", not a transport allocated and checked here"
+							}
+						}
+					}
+				}
+			}
+		}
+		r.Check(ok, "C02.R6", fmt.Sprintf("%s/client#%d", FuncName(a.Parent()), i+1), p.Pos(a.Pos()), "the HTTP client uses a transport allocated here without proxy", why)
 	}
 }
 
